@@ -24,7 +24,7 @@ class C16(BaseCheck):
   REQUIRED_ANCHORS = ANCHORS
   REQUIRED_CLASSES = ('singleton', 'refcount', 'shared', 'concurrent-first-requests', 'replaced-after-failure',
                       'surplus-close', 'reopen-after-last-close', 'same-key', 'different-key',
-                      'underlying-closed-while-held')
+                      'underlying-closed-while-held', 'underlying-state-changes')
   QUICK_CASES = 1500
   THOROUGH_CASES = 120000
   QUICK_WALL = 180
@@ -288,7 +288,8 @@ class C16(BaseCheck):
 
       def AsyncProcessResponse(self, *a):
         pass
-    rc = RefCountedSink(Under())
+    under = Under()
+    rc = RefCountedSink(under)
     holders = rng.randint(1, 6)
     count = 0
     current_ar = None
@@ -296,6 +297,13 @@ class C16(BaseCheck):
     for step in range(nops):
       opens_before = sum(1 for e in log if e[0] == 'open')
       closes_before = sum(1 for e in log if e[0] == 'close')
+      if rng.random() < 0.15:
+        # the underlying sink's state moves on its own (opening, busy, faulted, back up): sharing
+        # and reference counting do not depend on it
+        under.state_ = rng.choice([IDLE, OPEN, BUSY, CLOSED, CLOSED])
+        classes.add('underlying-state-changes')
+        if under.state_ == CLOSED and count > 0:
+          classes.add('underlying-closed-while-held')
       if rng.random() < 0.5 and count < holders * 2:
         got = rc.Open()
         opens = sum(1 for e in log if e[0] == 'open') - opens_before
